@@ -30,7 +30,7 @@ ASSUMPTIONS = [
     "differ)",
 ]
 FLOORS = {"quick": {"accepted_compared": 6000},
-          "thorough": {"accepted_compared": 300000}}
+          "thorough": {"accepted_compared": 150000}}
 N_MODELS = {"quick": 300, "thorough": 12000}
 TEXTS = {"quick": 14, "thorough": 36}
 
